@@ -170,7 +170,8 @@ def run(ctx, rep):
                   [m for m, a in terms] == ["read_const", "parse", "read_bit", "read_unary"] and terms[0][1][:2] == ["1", "0"] and terms[3][1] == ["1"],
                   loc_of(b), str(terms))
         adds = [s for bl in b.blocks for s in bl["s"] if s["rv"]["r"] == "bin" and s["rv"]["op"].startswith("Add") and op_int(s["rv"]["b"]) == 1]
-        rep.check("C03.rfc", "wasted bits = unary count + 1", len(adds) >= 1, loc_of(b))
+        cadds = [t for _, t in b.calls() if re.search(r"<impl u32>::checked_add$", callee_name(t)) and op_int(t["a"][1]) == 1]
+        rep.check("C03.rfc", "wasted bits = unary count + 1", len(adds) + len(cadds) == 1, loc_of(b))
 
     # ---- frame sync ----------------------------------------------------------------------------------
     for b in anchor(F, rep, "C03.rfc", "stream::FrameHeader::parse", multi=True):
